@@ -1,6 +1,8 @@
 (** C13: executable comparison of the model with the observations of the
     harness (GET sites: status, last_error class, idling, addr; data query /
-    GetDataStore: failed) after every event. *)
+    GetDataStore: failed; isOnline; the hostsbygroup table; which core instance
+    and which object set the cached status / hosts tables are from) after every
+    event, i.e. also right after the step that re-synchronised. *)
 From LMD Require Export C13.Model.
 
 Record case := mkCase {
@@ -12,7 +14,9 @@ Record case := mkCase {
 Definition obs_eqb (a b : obs) : bool :=
   pstatus_eqb (o_status a) (o_status b) && Bool.eqb (o_err a) (o_err b) &&
   Bool.eqb (o_idling a) (o_idling b) && Bool.eqb (o_failed a) (o_failed b) &&
-  Nat.eqb (o_addr a) (o_addr b).
+  Nat.eqb (o_addr a) (o_addr b) &&
+  Bool.eqb (o_online a) (o_online b) && Bool.eqb (o_bygroup a) (o_bygroup b) &&
+  Nat.eqb (o_core a) (o_core b) && Nat.eqb (o_dset a) (o_dset b).
 
 Fixpoint list_eqb {A} (eqb : A -> A -> bool) (a b : list A) : bool :=
   match a, b with
